@@ -1,6 +1,7 @@
 """C04 - full loading never imports, calls or instantiates what a document names."""
 import sys
 
+from sa import rules_state as RSTATE
 from sa import rules_r6b as R6B
 from sa import report, effects as E, rules_registry as RR, rules_confine as RC
 from sa import rules_repr as RREPR
@@ -45,6 +46,7 @@ def run(ctx, repo):
     ctx.call(R6B.r_import_result_unused, repo)
     ctx.call(R6B.r_no_codec_lookup, repo)
     ctx.call(R6B.r_constructor_kind_checked, repo, ['loader.FullLoader'])
+    ctx.call(RSTATE.r_directives_reset, repo)
 
 
 if __name__ == '__main__':
